@@ -66,6 +66,11 @@ CHECKS['C03'] = dict(level=MC, engine='Layout', design='DESIGN.md §3 C03; check
    note='arm64 queue header layout is not built. Three uint32 wrap-around defects found here are fixed in /repo.',
    technique='TLA+ operators (reduced word width) + TLC over a configuration grid; every configuration executed on the real layout code with geometry comparison')
 
+CHECKS['C11'] = dict(level=MC, engine='Blocking', design='DESIGN.md §3 C11; checks/blocking_NOTES.md',
+   text='Blocking.tla models five waiters at shared-access granularity - readMore (notify channel of capacity 1, close channel, timer; several reads in sequence, stale token), the Flush queue-full retry loop against deadline/close/consumer, AcceptStream against new stream and session close, waitForSendErr and the wakeUpPeer/hotRestart slow path against the send loop, initProtocol against a peer that answers, stalls or closes - with the releasing events as environment actions; TLC checks 7 invariants (result table: nil only with the data there, timeout never early, EOS/closed only in those states) and 6 leads-to properties (a waiter whose releasing event completed returns) exhaustively. Cover paths of the TLC graph plus must-replay behaviours are staged on REAL sessions with gates in front of pendingData.moveTo / getStreamState / queue.put (waiter) and pendingData.add / getStreamState / pendingData.clear (environment); whether a goroutine is blocked in select or chan send is read from runtime.Stack so "event just before / just after the waiter subscribes" is staged without sleeps; every observation is validated against the TLC graph and independent oracles check that no waiter stays blocked after its releasing event, no timeout comes early, and every call returns within a generous bound.',
+   note='The release time bound is measured (10 s bound on a loaded machine), not proved. Go timer-reuse races and SetReadDeadline during a blocked read are not covered.',
+   technique='TLA+ spec with leads-to properties + TLC exhaustive; cover-path staging on real sessions with gate-controlled interleavings and graph conformance')
+
 PENDING = {}
 
 def main():
